@@ -224,6 +224,9 @@ pub fn gen_forkjoin(rng: &mut Rng, light: bool) -> VmCase {
         1 => -1,
         2 => 1,
         3 if !light => 2000 + rng.range(0, 3000),
+        // just past a few hundred: implementations that work through the children in blocks
+        // have their block boundaries here
+        5 => *rng.pick(&[255, 256, 257, 300, 511, 513, 1025]),
         4 => Word::MIN,
         _ => 2 + rng.range(0, if light { 10 } else { 62 }),
     };
@@ -262,6 +265,7 @@ pub fn gen_forkjoin(rng: &mut Rng, light: bool) -> VmCase {
     }
     ops.push(PUSH(breadth));
     ops.push(COM());
+    let com_ix = ops.len() - 1;
     let stack_full = tag.contains("parent-stack-409");
     let body = if stack_full && rng.chance(3, 4) {
         // only bodies that never need a word above the index can succeed here
@@ -338,6 +342,16 @@ pub fn gen_forkjoin(rng: &mut Rng, light: bool) -> VmCase {
         tag.push_str("transient-read-error,");
     }
     c.container = random_container(rng);
+    if rng.chance(1, 10) {
+        // F8: the instruction store fails to deliver one operation of the Compute's body (every
+        // child that gets there fails, so the Compute fails on every schedule)
+        let n_ops = crate::ops::from_bytes(&c.program).map(|o| o.len()).unwrap_or(0);
+        if n_ops > com_ix + 1 {
+            let at = com_ix + 1 + rng.usize((n_ops - com_ix - 1).min(8));
+            c.container = Container::Lazy { fail_at: Some(at) };
+            tag.push_str(&format!("fetch-error-at-{at},"));
+        }
+    }
     c.shape = format!("forkjoin breadth={breadth} {tag}");
     c
 }
